@@ -44,7 +44,7 @@ def model(gens, pivots, names, maxstack, maxctx, maxchain, alias, props=True):
 
 class P(flow.Plan):
     pid = "C13"
-    clauses = ["C13_Reverse", "C13_Stack", "C13_Named", "C13_Delete", "C13_Ctx", "C13_Keep", "C13_Pivot", "C13_Matrix"]
+    clauses = ["C13_Reverse", "C13_Stack", "C13_Named", "C13_Delete", "C13_Ctx", "C13_Keep", "C13_Pivot", "C13_Matrix", "C13_Angle"]
     trace_module = "TransformTrace"
     assumptions = ["probe points (4 affinely independent + 1) determine the affine map observed through apply_transform()",
                    "float runs compare restored states exactly (deep copies give identical floats) and inverses / pivots to 3e-4",
@@ -94,6 +94,8 @@ class P(flow.Plan):
             rng = random.Random(sd * 7919 + i)
             exact = i % 2 == 0
             descs = xform_rec.random_descs(rng, rng.randint(10, 30), exact)
+            if i % 6 == 1:          # one rotation by an arbitrary angle, read off directly (added after seed C04d)
+                descs = xform_rec.rotation_descs(rng) + descs
             traces.append(xform_rec.run_descs(descs, exact, {"driver": "random", "seed": sd * 7919 + i}))
             inputs.append({"exact": exact, "descs": descs})
         return traces, inputs
